@@ -126,9 +126,22 @@ def run_histories(r, rng, T, make_session, direct, req_cases, on_request=None):
         objs = [("seq", ds["q"], [])]          # (kind, object, operation chain)
         arrays = [("arr", ds["x"], ()), ("grid", ds["g"], ())]
         first_reads = {}
+        held = []
         L = rng.randint(3, 8)
+        forced = []
+        if rng.random() < 0.3:
+            # scripted opening: select columns by a list, derive once more, then ask for a column the selection left out
+            sub = rng.sample(HD, rng.randint(1, 2))
+            forced = [("cols", ("cols", tuple(sub))), (rng.choice(["cond", "slice"]), None),
+                      ("child", ("child", rng.choice([c for c in HD if c not in sub])))]
+        elif rng.random() < 0.3:
+            # scripted opening: one condition object kept by the caller and grown in place between two selections
+            forced = [("cond", ("cond", "a", ">=", 1)), ("cond&=", ("cond", "b", rng.choice([">", "<"]), rng.choice([10, 20, 30])))]
         for step in range(L):
             kind = rng.choice(["cols", "cols", "cond", "slice", "int", "child", "read", "read", "array", "grid", "overlap"])
+            op_forced = None
+            if forced:
+                kind, op_forced = forced.pop(0)
             if kind == "overlap":
                 # reads that overlap in time: one abandoned after its first record, or two consumed in lock step
                 try:
@@ -185,7 +198,7 @@ def run_histories(r, rng, T, make_session, direct, req_cases, on_request=None):
                     direct.append({"law": "array / grid read", "index": repr(idx), "error": repr(e)[:200]})
                 r.count((hi, step, kind, repr(idx)))
                 continue
-            j = rng.randrange(len(objs))
+            j = rng.randrange(len(objs)) if not (op_forced or forced) or step == 0 else len(objs) - 1
             okind, obj, chain = objs[j]
             single = any(o[0] == "child" for o in chain)
             cur = list(HD)
@@ -197,28 +210,40 @@ def run_histories(r, rng, T, make_session, direct, req_cases, on_request=None):
             if kind == "read":
                 pass
             else:
-                if kind in ("cols", "child", "cond") and single:
+                if kind in ("cols", "child", "cond", "cond&=") and single:
                     continue
+                ops_added = None
                 try:
                     if kind == "cols":
-                        op = ("cols", tuple(rng.sample(cur, rng.randint(1, len(cur)))))
+                        op = op_forced or ("cols", tuple(rng.sample(cur, rng.randint(1, len(cur)))))
                         lst = list(op[1])
                         new = obj[lst]
                         lst.reverse()          # what the caller does with its own list afterwards is the caller's business
                         lst.append("zz")
                     elif kind == "child":
-                        op = ("child", rng.choice(cur))
+                        # mostly a visible column; sometimes one an earlier column selection left out (it is still a child)
+                        op = op_forced or ("child", rng.choice(cur if rng.random() < 0.7 else HD))
                         new = obj[op[1]]
-                    elif kind == "cond":
+                    elif kind in ("cond", "cond&="):
                         c = rng.choice(HD)
                         o = rng.choice(list(COQOPS))
                         rhs = rng.choice([rng.randint(0, 60), rng.choice(HD)])
-                        op = ("cond", c, o, rhs)
+                        op = op_forced or ("cond", c, o, rhs)
+                        _, c, o, rhs = op
                         left = ds["q"][c]
                         right = ds["q"][rhs] if isinstance(rhs, str) else rhs
                         ce = {">": left > right, ">=": left >= right, "<": left < right, "<=": left <= right, "=": left == right,
                               "!=": left != right}[o]
-                        new = obj[ce]
+                        if held and (kind == "cond&=" or rng.random() < 0.4):
+                            # the caller keeps ONE condition and accumulates into it: f &= g; q[f]
+                            f, fops = held[0]
+                            f &= ce
+                            new = obj[f]
+                            ops_added = fops + [op]
+                            held[0] = (f, ops_added)
+                        else:
+                            new = obj[ce]
+                            held[:] = [(ce, [op])]
                     elif kind == "slice":
                         op = ("slice", slice(rng.choice([None, 0, 1, 2]), rng.choice([None, 0, 1, 3, 9]), rng.choice([None, 1, 2])))
                         new = obj[op[1]]
@@ -230,8 +255,8 @@ def run_histories(r, rng, T, make_session, direct, req_cases, on_request=None):
                     continue
                 if new is obj:
                     direct.append({"law": "a derivation returns a NEW object", "chain": repr(chain), "op": repr(op)})
-                objs.append(("seq", new, chain + [op]))
-                r.count((hi, step, repr(chain + [op])))
+                objs.append(("seq", new, chain + (ops_added or [op])))
+                r.count((hi, step, repr(chain + (ops_added or [op]))))
             # after every step: re-read EVERY object obtained so far
             for k, (okind2, o2, ch2) in enumerate(objs):
                 sg = any(o[0] == "child" for o in ch2)
@@ -258,7 +283,14 @@ def run_histories(r, rng, T, make_session, direct, req_cases, on_request=None):
                 reqs = [u for m, u in adapter.seen if ".dods" in u]
                 if on_request:
                     on_request(adapter, sess)
-                if reqs and len(req_cases) < (500 if T == "quick" else 5000):
+                vis_, hidden_child = list(HD), False
+                for o_ in ch2:
+                    if o_[0] == "cols":
+                        vis_ = list(o_[1])
+                    elif o_[0] == "child":
+                        hidden_child = hidden_child or o_[1] not in vis_
+                # (the request model is stated for selections of visible columns)
+                if reqs and not hidden_child and len(req_cases) < (500 if T == "quick" else 5000):
                     pq = parse_query(urlsplit(reqs[-1]).query)
                     if pq is not None:
                         cols, rng_, cls = pq
